@@ -33,6 +33,8 @@ type FnContract struct {
 	Requires   []*Clause
 	Ensures    []*Clause
 	Assumes    []*Clause // like ensures at call sites, but not proved for the body (listed as assumption)
+	Presumes   []*Clause // a stated assumption about the entry state: assumed like a requires in the body, assumed (not checked) at call sites, listed as assumption
+	Given      []*Clause // an assumption about the execution (e.g. no counter overflow): assumed at the function's own exit and at call sites, listed as assumption
 	Invariants []*Clause
 	Calls      []*Clause
 	Boundary   []*Clause
@@ -65,19 +67,32 @@ type Macro struct {
 	Body   Expr
 }
 
+// StructShape pins the exported field list of a request/wire type:
+// `struct nut03.PostSwapRequest [C08] Inputs Outputs`.
+type StructShape struct {
+	Type    string
+	Pkg     string // package path the directive was written in
+	Tags    []string
+	Fields  []string
+	File    string
+	Line    int
+	Imports map[string]string
+}
+
 type ContractSet struct {
 	Implements map[string]string // concrete receiver "(*pkg.T)" -> interface "(pkg.I)"
 	Macros     map[string]*Macro
 	Fns        map[string]*FnContract
 	Order      []string
 	Lemmas     []*Lemma
+	Structs    []*StructShape
 	Imports    map[string]string
 }
 
 var clauseKw = map[string]bool{"func": true, "requires": true, "ensures": true, "loop": true, "calls": true,
 	"tags": true, "safety": true, "boundary": true, "modifies": true, "trusted": true, "pure": true,
 	"bounded": true, "lemma": true, "import": true, "inline": true, "nobody": true, "nullable": true,
-	"fresh": true, "maypanic": true, "records": true, "end": true, "macro": true, "assumes": true, "implements": true}
+	"fresh": true, "maypanic": true, "records": true, "struct": true, "end": true, "macro": true, "assumes": true, "given": true, "presumes": true, "implements": true}
 
 var reTagList = regexp.MustCompile(`^\[([A-Za-z0-9, ]+)\]\s*`)
 var reAtName = regexp.MustCompile(`^@([A-Za-z0-9_.\-]+)\s*`)
@@ -213,6 +228,22 @@ func (cs *ContractSet) ParseContractFile(path, pkgPath string) error {
 			if params != nil {
 				cur.ParamNames = params
 			}
+		case "struct":
+			// struct pkg.Type [tags] Field Field ...
+			f := strings.SplitN(rest, " ", 2)
+			ss := &StructShape{Type: f[0], Pkg: pkgPath, File: path, Line: l.line, Imports: cs.Imports}
+			if len(f) == 2 {
+				r2 := strings.TrimSpace(f[1])
+				if m := reTagList.FindStringSubmatch(r2); m != nil {
+					for _, t := range strings.Split(m[1], ",") {
+						ss.Tags = append(ss.Tags, strings.TrimSpace(t))
+					}
+					r2 = r2[len(m[0]):]
+				}
+				ss.Fields = strings.Fields(r2)
+			}
+			cs.Structs = append(cs.Structs, ss)
+			cur = nil
 		case "lemma":
 			// lemma name [tags] (x Sort, y Sort) :: expr
 			lm := &Lemma{File: path, Line: l.line}
@@ -274,7 +305,7 @@ func (cs *ContractSet) ParseContractFile(path, pkgPath string) error {
 				cur.Bounded = rest
 			case "end":
 				cur = nil
-			case "requires", "ensures", "boundary", "assumes":
+			case "requires", "ensures", "boundary", "assumes", "given", "presumes":
 				c, err := parseClause(kw, rest)
 				if err != nil {
 					return err
@@ -288,6 +319,10 @@ func (cs *ContractSet) ParseContractFile(path, pkgPath string) error {
 					cur.Boundary = append(cur.Boundary, c)
 				case "assumes":
 					cur.Assumes = append(cur.Assumes, c)
+				case "given":
+					cur.Given = append(cur.Given, c)
+				case "presumes":
+					cur.Presumes = append(cur.Presumes, c)
 				}
 			case "loop":
 				// loop <key> invariant <expr>
